@@ -290,6 +290,82 @@ def pool_count(prog, fn, a, b):
     return None
 
 
+def positive(prog, fn, v, depth=0):
+    """is v >= 1 on every path? const >= 1; max(_, const >= 1); capacity() of a vector field that is created with a positive
+    capacity and never shrunk; a parameter that is positive at every call site"""
+    v = strip(v)
+    if v is None or depth > 4:
+        return False
+    if v.kind == 'const':
+        return isinstance(v.args[0], int) and v.args[0] >= 1
+    if v.kind == 'cast':
+        return positive(prog, fn, v.args[0], depth + 1)
+    if v.kind == 'phi':
+        # each incoming value is positive by itself, or under the branch that leads to its edge (`if c < MIN { MIN } else { c }`)
+        def guarded(a, pred):
+            for (g, x, y) in dominating_guards(prog, fn.body, (pred, 10 ** 6)):
+                if y is None:
+                    continue
+                sy, sx = strip(y), strip(x)
+                if same_val(x, a) and sy.kind == 'const' and isinstance(sy.args[0], int) and ((g == 'Ge' and sy.args[0] >= 1) or (g == 'Gt' and sy.args[0] >= 0)):
+                    return True
+                if same_val(y, a) and sx.kind == 'const' and isinstance(sx.args[0], int) and ((g == 'Le' and sx.args[0] >= 1) or (g == 'Lt' and sx.args[0] >= 0)):
+                    return True
+            return False
+        preds = v.extra.get('preds') or [None] * len(v.args)
+        return bool(v.args) and all(positive(prog, fn, a, depth + 1) or (p_ is not None and guarded(a, p_)) for a, p_ in zip(v.args, preds))
+    if v.kind == 'call':
+        nm = v.callee_name()
+        if nm == 'max' and len(v.args) == 2 and prog.resolve(v) is None:
+            return positive(prog, fn, v.args[0], depth + 1) or positive(prog, fn, v.args[1], depth + 1)
+        if nm == 'capacity' and v.args and prog.resolve(v) is None:
+            vf = vec_field_of(prog, v.args[0])
+            if vf is None:
+                return False
+            fld = vf[-1]
+            # every constructor of the owning type builds this field with a positive capacity, and nothing shrinks it
+            owner = fn.self_adt
+            made = False
+            for g in prog.fns.values():
+                if not g.info.get('mir') or g.is_closure:
+                    continue
+                for c in g.body.calls:
+                    if c.callee_name() in ('shrink_to_fit', 'shrink_to') and c.args and (vec_field_of(prog, c.args[0]) or ())[-1:] == (fld,) and g.self_adt == owner:
+                        return False
+                for a in g.body._vals:
+                    if a.kind == 'agg' and a.extra.get('akind') == 'adt' and a.extra.get('path') == owner and a.extra.get('variant'):
+                        names = a.extra['variant']['fields']
+                        if fld in names and len(names) == len(a.args):
+                            init = strip(a.args[names.index(fld)])
+                            if init.kind == 'call' and init.callee_name() == 'with_capacity' and init.args and positive(prog, g, init.args[0], depth + 1):
+                                made = True
+                            else:
+                                return False
+            return made
+        return False
+    if v.kind == 'param':
+        k = v.args[0]
+        callers = [(c, cf) for c, cf in prog.callers(fn) if c.kind == 'call']
+        return bool(callers) and all(k - 1 < len(c.args) and positive(prog, cf, c.args[k - 1], depth + 1) for c, cf in callers)
+    return False
+
+
+def growth_amount_positive(prog, fn):
+    """the premise of the pool's two reasoned entries: the growth function is only ever asked for a positive number of slots"""
+    from rules.pool import pool_roles
+    r = pool_roles(prog).get(fn.self_adt)
+    if not r or not r.get('grow'):
+        return False, 'no growth function recognised'
+    for gfn in r['grow']:
+        callers = [(c, cf) for c, cf in prog.callers(gfn) if c.kind == 'call']
+        if not callers:
+            return False, '%s is never called' % gfn.name
+        for c, cf in callers:
+            if len(c.args) < 2 or not positive(prog, cf, c.args[1]):
+                return False, '%s may be asked for 0 slots by %s (%s is not provably >= 1)' % (gfn.name, cf.name, show(strip(c.args[1]), 3) if len(c.args) > 1 else '?')
+    return True, ''
+
+
 def counter_field(prog, fn, x, step):
     """x + small constant where x is a 64-bit field of self that the whole crate only ever sets to a constant or steps by a small
     constant (an entry counter): 2^64 steps are out of reach"""
@@ -534,6 +610,12 @@ def run(ctx):
                 inner = strip(c.args[0])
                 sg = '%s(%s)' % (nm, inner.callee_name() if inner.kind == 'call' else inner.kind)
                 key = table_key(mk, name, sg)
+                if key == ('pool', 'get_free_index', 'unwrap(pop)'):
+                    ok_, why_ = growth_amount_positive(prog, fn)
+                    if not ok_:
+                        key = None
+                        ctx.add(RULE, fn, 'call:' + sg, 'violation', 'pop().unwrap() on the free list right after growing it: the growth may add nothing, ' + why_, PROPS, line)
+                        continue
                 if key:
                     ctx.add(RULE, fn, 'call:' + sg, 'exception', 'accepted: ' + TABLE[key], PROPS, line)
                 else:
@@ -635,7 +717,10 @@ def table_key(mk, name, sg):
 def classify_panic(prog, fn, mk, name, what, txt, c):
     if what == 'debug_assert':
         if mk == 'pool':
-            return 'exception', 'accepted: ' + TABLE[('pool', 'reserve', 'panic(debug_assert length > 0)')]
+            ok_, why_ = growth_amount_positive(prog, fn)
+            if not ok_:
+                return 'violation', 'the assertion that the pool grows by a positive amount can fail: ' + why_
+            return 'exception', 'accepted: ' + TABLE[('pool', 'reserve', 'panic(debug_assert length > 0)')] + ' (checked: every call of the growth function passes a positive amount)'
         if mk == 'heap':
             return 'exception', 'accepted: bucket numbers are below 32 for in-domain coordinates (C14, assumed)'
         if 'expiration' in txt or 'expired' in txt.lower() or fn.trait_method() == 'insert':
